@@ -15,12 +15,20 @@ import (
 )
 
 type WrRev struct {
-	Ping func(ctx context.Context, x int) (int, error)
+	Ping     func(ctx context.Context, x int) (int, error)
+	PingHold func(ctx context.Context, x int) (int, error)
 }
 
-type WrRevHnd struct{}
+type WrRevHnd struct{ s *vsched.Sched }
 
 func (WrRevHnd) Ping(ctx context.Context, x int) (int, error) { return x + 1, nil }
+
+// PingHold answers only once the client has swapped in a new connection: its response is
+// written by a handler that started on the previous connection.
+func (h WrRevHnd) PingHold(ctx context.Context, x int) (int, error) {
+	h.s.Env("revhold-go")
+	return x + 1, nil
+}
 
 type WrSrv struct {
 	s  *vsched.Sched
@@ -60,12 +68,21 @@ func (h *WrSrv) Rev(ctx context.Context, x int) (int, error) {
 	return rc.Ping(ctx, x)
 }
 
+func (h *WrSrv) RevHold(ctx context.Context, x int) (int, error) {
+	rc, ok := jsonrpc.ExtractReverseClient[WrRev](ctx)
+	if !ok {
+		return -1, nil
+	}
+	return rc.PingHold(ctx, x)
+}
+
 type WrCli struct {
-	Echo func(ctx context.Context, tok int) (int, error)
-	Hold func(ctx context.Context, tok int) (int, error)
-	Big  func(ctx context.Context, n int) (string, error)
-	Sub  func(ctx context.Context, id int) (<-chan int, error)
-	Rev  func(ctx context.Context, x int) (int, error)
+	RevHold func(ctx context.Context, x int) (int, error)
+	Echo    func(ctx context.Context, tok int) (int, error)
+	Hold    func(ctx context.Context, tok int) (int, error)
+	Big     func(ctx context.Context, n int) (string, error)
+	Sub     func(ctx context.Context, id int) (<-chan int, error)
+	Rev     func(ctx context.Context, x int) (int, error)
 }
 
 // S-WRITERS (DESIGN §3 C14): every vnet write is a schedule point, so a writer can be
@@ -89,6 +106,9 @@ func init() {
 				// a peer that also sends frames the library must ignore or refuse (not JSON, bad id
 				// type): whatever the library does about them must respect the write discipline
 				add("s5000-garbage", 1, map[string]int{"size": 5000, "garbage": 1})
+				// a reverse handler that is still running when the connection is replaced, and a
+				// reverse call on the new connection
+				add("s16-reconnect-revhold", 1, map[string]int{"size": 16, "reconnect": 1, "revhold": 1})
 				return ps
 			}
 			add("s16", 2, map[string]int{"size": 16})
@@ -100,6 +120,8 @@ func init() {
 			add("s5000-reconnect-pings", 1, map[string]int{"size": 5000, "reconnect": 1, "pings": 1})
 			add("s5000-garbage", 2, map[string]int{"size": 5000, "garbage": 1})
 			add("s70000-garbage", 1, map[string]int{"size": 70000, "garbage": 1})
+			add("s16-reconnect-revhold", 2, map[string]int{"size": 16, "reconnect": 1, "revhold": 1})
+			add("s5000-reconnect-revhold-pings", 1, map[string]int{"size": 5000, "reconnect": 1, "revhold": 1, "pings": 1})
 			return ps
 		},
 		Body: writersBody,
@@ -108,7 +130,7 @@ func init() {
 
 func writersBody(s *vsched.Sched, p Param) {
 	sopts := []jsonrpc.ServerOption{jsonrpc.WithReverseClient[WrRev]("R")}
-	copts := []jsonrpc.Option{jsonrpc.WithClientHandler("R", WrRevHnd{})}
+	copts := []jsonrpc.Option{jsonrpc.WithClientHandler("R", WrRevHnd{s: s})}
 	if p.I("pings") == 1 {
 		sopts = append(sopts, jsonrpc.WithServerPingInterval(time.Second))
 		copts = append(copts, jsonrpc.WithPingInterval(time.Second), jsonrpc.WithTimeout(3*time.Second))
@@ -137,9 +159,24 @@ func writersBody(s *vsched.Sched, p Param) {
 	subCtx, subCancel := context.WithCancel(context.Background())
 	s.Teardown = func() { holdCancel(); subCancel(); w.Teardown() }
 	size := p.I("size")
+	okDials := func() int {
+		n := 0
+		for _, d := range w.Net.Dials() {
+			if d.OK {
+				n++
+			}
+		}
+		return n
+	}
 	s.EnvEnabled = func(name string) bool {
-		if name == "close-go" {
+		switch name {
+		case "close-go":
 			return s.Now() >= 2500*time.Millisecond
+		case "revhold-go", "rev2-go":
+			return okDials() >= 2
+		case "closerev-go":
+			_, a := obs.Get("rev2")
+			return a
 		}
 		return true
 	}
@@ -157,6 +194,13 @@ func writersBody(s *vsched.Sched, p Param) {
 		}
 		if v, _ := obs.Get("rev"); strings.HasSuffix(v, "/<nil>") && v != "8/<nil>" {
 			s.Violate("C14: reverse call result damaged: %s", v)
+		}
+		if p.I("revhold") == 1 {
+			if v, ok := obs.Get("rev2"); !ok {
+				s.Violate("C14: the call made after the reconnect never returned; alive: %s", strings.Join(s.Alive(), " "))
+			} else if strings.HasSuffix(v, "/<nil>") && v != "10/<nil>" {
+				s.Violate("C14: reverse call result on the new connection damaged: %s", v)
+			}
 		}
 		for k, want := range map[string]string{"e1": "60/<nil>", "e2": "61/<nil>"} {
 			if v, _ := obs.Get(k); strings.HasSuffix(v, "/<nil>") && v != want {
@@ -202,6 +246,14 @@ func writersBody(s *vsched.Sched, p Param) {
 	if p.I("reconnect") == 1 {
 		s.Go("zcut", func() { w.Net.Link(0).Sever(vnet.FIN) })
 	}
+	if p.I("revhold") == 1 {
+		s.Go("c-revhold", func() { v, err := cli.RevHold(context.Background(), 20); obs.Set("revhold", "%d/%s", v, errClass(err)) })
+		s.Go("zrev2", func() {
+			s.Env("rev2-go")
+			v, err := cli.Rev(context.Background(), 9)
+			obs.Set("rev2", "%d/%s", v, errClass(err))
+		})
+	}
 	if p.I("garbage") == 1 {
 		// malformed frames in both directions, placed anywhere by one deviation each
 		s.Go("zgarbage-c2s", func() {
@@ -215,6 +267,9 @@ func writersBody(s *vsched.Sched, p Param) {
 	s.Go("zzcloser", func() {
 		if p.I("pings") == 1 {
 			s.Env("close-go") // let a few ping rounds happen first
+		}
+		if p.I("revhold") == 1 {
+			s.Env("closerev-go") // after the call on the new connection
 		}
 		closer()
 		obs.Set("closed", "1")
